@@ -97,6 +97,13 @@ fn const_j<'tcx>(tcx: TyCtxt<'tcx>, ct: ty::Const<'tcx>) -> J {
         ConstKind::Value(v) => {
             if let Some(si) = v.try_to_leaf() {
                 J::obj(vec![("c", J::s("lit")), ("v", J::U(si.to_bits_unchecked())), ("ty", J::S(ty_str(v.ty)))])
+            } else if let Some(bytes) = v.try_to_raw_bytes(tcx) {
+                let is_str = matches!(v.ty.kind(), ty::TyKind::Ref(_, t, _) if t.is_str());
+                if is_str {
+                    J::obj(vec![("c", J::s("str")), ("v", J::S(String::from_utf8_lossy(bytes).to_string()))])
+                } else {
+                    J::obj(vec![("c", J::s("bytes")), ("v", J::A(bytes.iter().map(|b| J::U(*b as u128)).collect()))])
+                }
             } else {
                 J::obj(vec![("c", J::s("other")), ("s", J::S(format!("{:?}", ct)))])
             }
@@ -375,7 +382,8 @@ impl<'tcx> Cx<'tcx> {
                     }
                     return J::obj(v);
                 }
-                if let ConstValue::Slice { .. } = cv {
+                let sliceish = matches!(ty.kind(), ty::TyKind::Ref(_, t, _) if t.is_str() || t.is_slice());
+                if sliceish || matches!(cv, ConstValue::Slice { .. }) {
                     if let Some(bytes) = cv.try_get_slice_bytes_for_diagnostics(tcx) {
                         let is_str = matches!(ty.kind(), ty::TyKind::Ref(_, t, _) if t.is_str());
                         if is_str {
